@@ -1035,3 +1035,23 @@ Proof.
     split; [assumption|]. split; [apply in_map; now apply in_rev in Hr|].
     split; [reflexivity|cbn; now rewrite Hc].
 Qed.
+
+(** * The three "exactly its source rows" statements for a whole source *)
+
+Theorem source_nothing_invented files r :
+  In r (co_entries (collect_files files)) ->
+  exists t cs ws, In (LRow t cs ws) (source_rows files) /\ cs <> [] /\ r = raw_of t cs ws.
+Proof.
+  rewrite collect_files_fold. intros H. destruct (run_rows_sound _ _ _ H) as [[]|H']. exact H'.
+Qed.
+
+Theorem source_nothing_lost files t cs ws :
+  In (LRow t cs ws) (source_rows files) -> cs <> [] ->
+  exists r, In r (co_entries (collect_files files)) /\ re_text r = t /\ re_code r = split_skip x20 cs /\
+            (is_single r = false -> r = raw_of t cs ws).
+Proof. rewrite collect_files_fold. apply run_rows_complete. apply words_inv0. Qed.
+
+Theorem source_phrases_one_for_one files :
+  filter (fun r => negb (is_single r)) (rev (co_entries (collect_files files))) =
+  filter (fun r => negb (is_single r)) (flat_map coded (source_rows files)).
+Proof. rewrite collect_files_fold. rewrite run_rows_multi. reflexivity. Qed.
